@@ -143,16 +143,14 @@ def dataVal : BData → Val
   | _ => .obj
 
 /-- `Group._setting` (repaired): `lsct`, overridden by `lsdk`. -/
-def settingKey (l : Layer) : Option Key :=
-  match findBlock kLsdk l.blocks with
-  | some _ => some kLsdk
-  | none => match findBlock kLsct l.blocks with
-    | some _ => some kLsct
-    | none => none
+def settingKey (bs : List Block) : Option Key :=
+  if (findBlock kLsdk bs).isSome then some kLsdk
+  else if (findBlock kLsct bs).isSome then some kLsct
+  else none
 
-def setting (l : Layer) : Option BData :=
-  match settingKey l with
-  | some k => (findBlock k l.blocks).map (·.data)
+def setting (bs : List Block) : Option BData :=
+  match settingKey bs with
+  | some k => (findBlock k bs).map (·.data)
   | none => none
 
 /-- `FillLayer.right`: the record's, or the canvas width when the record says 0. -/
@@ -172,13 +170,15 @@ def bottomOf (l : Layer) : Except Err Int :=
       | none => .error .valueError
   else .ok l.bottom
 
-def width (l : Layer) : Except Err Int := do
-  let r ← rightOf l
-  pure (r - l.left)
+def width (l : Layer) : Except Err Int :=
+  match rightOf l with
+  | .ok r => .ok (r - l.left)
+  | .error e => .error e
 
-def height (l : Layer) : Except Err Int := do
-  let b ← bottomOf l
-  pure (b - l.top)
+def height (l : Layer) : Except Err Int :=
+  match bottomOf l with
+  | .ok b => .ok (b - l.top)
+  | .error e => .error e
 
 def get (a : Attr) (l : Layer) : Except Err Val :=
   match a with
@@ -190,7 +190,7 @@ def get (a : Attr) (l : Layer) : Except Err Val :=
   | .opacity => .ok (.int l.opacity)
   | .blendMode =>
     if l.kind.isGroup then
-      match setting l with
+      match setting l.blocks with
       | some (.divider d) =>
         (match d.blend with
          | some m => .ok (.key m)
@@ -224,24 +224,26 @@ def setBlend (E : Env) (m : Key) (l : Layer) : Except Err Layer :=
   if ¬ (m ∈ E.blendKeys) then .error .valueError
   else if l.kind.isGroup then
     let l1 := { l with blend := if m = kPass then kNorm else m }
-    match settingKey l with
+    match settingKey l.blocks with
     | none => .ok l1
     | some k =>
-      match setting l with
+      match setting l.blocks with
       | some (.divider _) => .ok { l1 with blocks := mapData k (putBlend m) l.blocks }
       | _ => .error .other
   else .ok { l with blend := m }
 
 def setLeft (v : Int) (l : Layer) : Except Err Layer :=
-  if l.kind.movable then do
-    let w ← width l
-    pure { l with left := v, right := v + w }
+  if l.kind.movable then
+    match width l with
+    | .ok w => .ok { l with left := v, right := v + w }
+    | .error e => .error e
   else .error .other
 
 def setTop (v : Int) (l : Layer) : Except Err Layer :=
-  if l.kind.movable then do
-    let h ← height l
-    pure { l with top := v, bottom := v + h }
+  if l.kind.movable then
+    match height l with
+    | .ok h => .ok { l with top := v, bottom := v + h }
+    | .error e => .error e
   else .error .other
 
 /-- `Layer.lock(flags)` (repaired): mutate the stored element; when there is none,
@@ -281,9 +283,10 @@ def valid (E : Env) (a : Attr) (v : Val) : Prop :=
   | _, _ => False
 
 /-- `layer.offset = (x, y)` is `layer.left = x; layer.top = y`. -/
-def setOffset (x y : Int) (l : Layer) : Except Err Layer := do
-  let l1 ← setLeft x l
-  setTop y l1
+def setOffset (x y : Int) (l : Layer) : Except Err Layer :=
+  match setLeft x l with
+  | .ok l1 => setTop y l1
+  | .error e => .error e
 
 /-! ### Constructors of API-created layers -/
 
@@ -376,33 +379,39 @@ def decDivider (E : Env) : List UInt8 → Except Err Divider
       | _ => .ok ⟨kind, none, none, none⟩
   | _ => .error .other
 
-def encBlock (E : Env) (b : Block) : Except Err SBlock := do
-  let payload ← match b.data with
-    | .str s => E.uniEnc s
-    | .divider d => encDivider d
-    | .int v => if v < 4294967296 then .ok (u32be v) else .error .structError
-    | .raw bs => .ok bs
-  pure ⟨pad4 b.sig, pad4 b.key, payload⟩
+def encPayload (E : Env) : BData → Except Err (List UInt8)
+  | .str s => E.uniEnc s
+  | .divider d => encDivider d
+  | .int v => if v < 4294967296 then .ok (u32be v) else .error .structError
+  | .raw bs => .ok bs
 
-def decBlock (E : Env) (sb : SBlock) : Except Err Block := do
+def encBlock (E : Env) (b : Block) : Except Err SBlock :=
+  match encPayload E b.data with
+  | .ok payload => .ok ⟨pad4 b.sig, pad4 b.key, payload⟩
+  | .error e => .error e
+
+def decBlock (E : Env) (sb : SBlock) : Except Err Block :=
   if sb.sig ≠ sig8BIM ∧ sb.sig ≠ sig8B64 then .error .other
   else if sb.key = kLuni then
-    let s ← E.uniDec sb.payload
-    pure ⟨sb.sig, sb.key, .str s⟩
+    match E.uniDec sb.payload with
+    | .ok s => .ok ⟨sb.sig, sb.key, .str s⟩
+    | .error e => .error e
   else if sb.key = kLsct ∨ sb.key = kLsdk then
-    let d ← decDivider E sb.payload
-    pure ⟨sb.sig, sb.key, .divider d⟩
+    match decDivider E sb.payload with
+    | .ok d => .ok ⟨sb.sig, sb.key, .divider d⟩
+    | .error e => .error e
   else if sb.key = kLspf then
     match sb.payload with
-    | a :: b :: c :: d :: _ => pure ⟨sb.sig, sb.key, .int (u32 a b c d)⟩
+    | a :: b :: c :: d :: _ => .ok ⟨sb.sig, sb.key, .int (u32 a b c d)⟩
     | _ => .error .other
-  else pure ⟨sb.sig, sb.key, .raw sb.payload⟩
+  else .ok ⟨sb.sig, sb.key, .raw sb.payload⟩
 
 /-- legacy Pascal-string field of the record -/
 def encLegacy (E : Env) (l : Layer) : Except Err (List UInt8) :=
-  let strict : Except Err (List UInt8) := do
-    let bs ← E.macEnc l.legacyName
-    if bs.length ≤ 255 then pure bs else .error .structError
+  let strict : Except Err (List UInt8) :=
+    match E.macEnc l.legacyName with
+    | .ok bs => if bs.length ≤ 255 then .ok bs else .error .structError
+    | .error e => .error e
   if E.legacyFallback && (findBlock kLuni l.blocks).isSome then
     match strict with
     | .ok bs => .ok bs
@@ -410,28 +419,36 @@ def encLegacy (E : Env) (l : Layer) : Except Err (List UInt8) :=
   else strict
 
 /-- `LayerRecord.write`, the modelled fields in the order they are written. -/
-def save (E : Env) (l : Layer) : Except Err Stored := do
+def save (E : Env) (l : Layer) : Except Err Stored :=
   if !(inI32 l.top && inI32 l.left && inI32 l.bottom && inI32 l.right) then .error .structError
   else if l.opacity > 255 ∨ l.clipping > 255 then .error .structError
   else
-    let name ← encLegacy E l
-    let blocks ← l.blocks.mapM (encBlock E)
-    pure { top := l.top, left := l.left, bottom := l.bottom, right := l.right, blend := pad4 l.blend,
-           opacity := l.opacity, clipping := l.clipping, flags := l.flags.toByte, name := name,
-           blocks := blocks }
+    match encLegacy E l with
+    | .error e => .error e
+    | .ok name =>
+      match l.blocks.mapM (encBlock E) with
+      | .error e => .error e
+      | .ok blocks =>
+        .ok { top := l.top, left := l.left, bottom := l.bottom, right := l.right, blend := pad4 l.blend,
+              opacity := l.opacity, clipping := l.clipping, flags := l.flags.toByte, name := name,
+              blocks := blocks }
 
 /-- `LayerRecord.read` of what `save` wrote; kind, pixels and the document come from the rest
 of the file (`ctx`), which other properties cover. -/
-def reopen (E : Env) (ctx : Layer) (st : Stored) : Except Err Layer := do
-  let name ← E.macDec st.name
-  let blocks ← st.blocks.mapM (decBlock E)
-  if ¬ (st.blend ∈ E.blendKeys) then .error .valueError
-  else if st.opacity > 255 then .error .valueError
-  else if st.clipping > 1 then .error .valueError
-  else pure { kind := ctx.kind, top := st.top, left := st.left, bottom := st.bottom, right := st.right,
-              blend := st.blend, opacity := st.opacity, clipping := st.clipping,
-              flags := Flags.ofByte st.flags, legacyName := name, blocks := blocks,
-              pixels := ctx.pixels, psd := ctx.psd }
+def reopen (E : Env) (ctx : Layer) (st : Stored) : Except Err Layer :=
+  match E.macDec st.name with
+  | .error e => .error e
+  | .ok name =>
+    match st.blocks.mapM (decBlock E) with
+    | .error e => .error e
+    | .ok blocks =>
+      if ¬ (st.blend ∈ E.blendKeys) then .error .valueError
+      else if st.opacity > 255 then .error .valueError
+      else if st.clipping > 1 then .error .valueError
+      else .ok { kind := ctx.kind, top := st.top, left := st.left, bottom := st.bottom, right := st.right,
+                 blend := st.blend, opacity := st.opacity, clipping := st.clipping,
+                 flags := Flags.ofByte st.flags, legacyName := name, blocks := blocks,
+                 pixels := ctx.pixels, psd := ctx.psd }
 
 /-! ### Concrete codecs for the driver (and for the theorems about the current tables) -/
 
